@@ -510,3 +510,18 @@ func (v *Verifier) repoFuncByShortName(pkg *ssa.Package, name string) *ssa.Funct
 	}
 	return pkg.Func(name)
 }
+
+// EffectsString: the write-effect set of a function (debugging aid).
+func (v *Verifier) EffectsString(key string) string {
+	fn := v.FuncByKey(key)
+	if fn == nil {
+		return "no such function"
+	}
+	e := v.effectsOf(fn, map[*ssa.Function]bool{})
+	var ks []string
+	for k := range e.heaps {
+		ks = append(ks, k)
+	}
+	sort.Strings(ks)
+	return fmt.Sprintf("all=%v allocs=%v globals=%v heaps=%v", e.all, e.allocs, e.globals, ks)
+}
